@@ -379,7 +379,23 @@ def is_nonneg(t):
         for a, e in m:
             if _atom_pos(a) or a.key in NONNEG:
                 continue
-            if a.kind == 'call' and a.args[0] in ('abs', 'len'):
+            if a.kind == 'call' and a.args[0] in ('abs', 'len', 'sqrt'):
+                continue
+            if a.kind == 'call' and a.args[0] in ('round', 'floor', 'ceil', 'trunc') and a.args[1] and is_nonneg(a.args[1][0]):
+                continue
+            if a.kind == 'call' and a.args[0] in ('min', 'minimum') and a.args[1] and all(is_nonneg(x) for x in a.args[1]):
+                continue
+            if a.kind == 'call' and a.args[0] in ('max', 'maximum') and any(is_nonneg(x) for x in a.args[1]):
+                continue
+            if a.kind == 'call' and a.args[0] in ('floordiv', 'mod') and len(a.args[1]) == 2 and is_positive(a.args[1][1]) \
+                    and (a.args[0] == 'mod' or is_nonneg(a.args[1][0])):
+                continue
+            if a.kind == 'sub' and a.args[0].single_atom() is not None and a.args[0].single_atom().kind == 'call' \
+                    and a.args[0].single_atom().args[0] == 'shape':
+                continue
+            if a.kind == 'idx':
+                continue
+            if a.kind == 'ite' and is_nonneg(a.args[1]) and is_nonneg(a.args[2]):
                 continue
             if e.denominator == 1 and e % 2 == 0:
                 continue
